@@ -55,9 +55,14 @@ MODULES = {
     ]),
 }
 MODULES['Eval'] = ('maltoolbox/attackgraph/attackgraph.py', [(None, '_process_step_expression')])
-MODULE_ORDER = ['Node', 'Attacker', 'NodeDelegates', 'Query', 'Graph', 'Apriori', 'Eval']
+# a *slice* of a function: only the top-level statements picked by the selector are translated (here the second
+# loop of `_generate_graph`, which links the nodes; the first loop constructs objects from pjs assets and language
+# dictionaries and is outside the supported subset)
+MODULES['Link'] = ('maltoolbox/attackgraph/attackgraph.py', [('AttackGraph', '_generate_graph', 'link')])
+SLICES = {'link': ('the loop `for ag_node in self.nodes:`', lambda st: isinstance(st, ast.For) and ast.unparse(st.iter) == 'self.nodes')}
+MODULE_ORDER = ['Node', 'Attacker', 'NodeDelegates', 'Query', 'Graph', 'Apriori', 'Eval', 'Link']
 IMPORTS = {'Node': [], 'Attacker': ['Node'], 'NodeDelegates': ['Attacker'], 'Query': ['Node'],
-           'Graph': ['Attacker'], 'Apriori': ['Graph'], 'Eval': []}
+           'Graph': ['Attacker'], 'Apriori': ['Graph'], 'Eval': [], 'Link': ['Graph', 'Eval']}
 
 # `lang_graph` / `model` parameters of the step-expression evaluator: their methods are *parameters* of the
 # translation (fields of `EvalEnv` in the prelude), not translated code.  name -> (argument types, result, raises)
@@ -73,7 +78,7 @@ PREFIX = {'node': 'node_', 'att': 'attacker_', 'graph': 'graph_', None: ''}
 
 ATTRS = {
     'node': {'type': 'str', 'name': 'str', 'ttc': ('opt', 'dictS'), 'id': ('opt', 'int'),
-             'asset': ('opt', 'asset'), 'children': ('list', 'node'), 'parents': ('list', 'node'),
+             'asset': ('opt', 'asset_obj'), 'attributes': ('opt', 'attribs'), 'children': ('list', 'node'), 'parents': ('list', 'node'),
              'defense_status': ('opt', 'float'), 'existence_status': ('opt', 'bool'),
              'is_viable': 'bool', 'is_necessary': 'bool', 'compromised_by': ('list', 'att'),
              'mitre_info': ('opt', 'str'), 'tags': ('list', 'str')},
@@ -81,7 +86,8 @@ ATTRS = {
             'id': ('opt', 'int')},
     'graph': {'nodes': ('list', 'node'), 'attackers': ('list', 'att'),
               '_id_to_node': ('dict', 'int', 'node'), '_full_name_to_node': ('dict', 'str', 'node'),
-              '_id_to_attacker': ('dict', 'int', 'att'), 'next_node_id': 'int', 'next_attacker_id': 'int'},
+              '_id_to_attacker': ('dict', 'int', 'att'), 'next_node_id': 'int', 'next_attacker_id': 'int',
+              'lang_graph': 'env', 'model': 'env'},
     'asset': {'name': 'str'},
     'asset_obj': {'id': 'int', 'type': 'str', 'name': 'str'},
 }
@@ -94,7 +100,7 @@ LEAN_KEYWORDS = {'end', 'at', 'from', 'have', 'show', 'fun', 'then', 'else', 'do
                  'catch', 'finally', 'break', 'continue', 'calc', 'obtain', 'using', 'deriving', 'extends',
                  'local', 'private', 'protected', 'set_option', 'attribute', 'macro', 'syntax', 'notation',
                  'infix', 'prefix', 'postfix', 'mutual', 'partial', 'unsafe', 'noncomputable', 's', 'fuel'}
-EXC = {'LookupError': 'PyErr.lookupError', 'ValueError': 'PyErr.valueError', 'AttackGraphException': 'PyErr.attackGraphException',
+EXC = {'AttackGraphStepExpressionError': 'PyErr.attackGraphStepExpressionError', 'LookupError': 'PyErr.lookupError', 'ValueError': 'PyErr.valueError', 'AttackGraphException': 'PyErr.attackGraphException',
        'AssertionError': 'PyErr.assertionError', 'KeyError': 'PyErr.keyError'}
 
 def lean_type(t):
@@ -110,6 +116,8 @@ def lean_type(t):
     if t == 'expr': return 'PyExpr'
     if t == 'lgasset': return 'LgAsset'
     if t == 'env': return 'EvalEnv'
+    if t == 'attribs': return 'PyAttribs'
+    if t == 'reaches': return 'PyReaches'
     if isinstance(t, tuple) and t[0] == 'tuple': return '(' + ' × '.join(lean_type(x) for x in t[1:]) + ')'
     if isinstance(t, tuple) and t[0] == 'opt': return f'(Option {lean_type(t[1])})'
     if isinstance(t, tuple) and t[0] == 'list': return f'(List {lean_type(t[1])})'
@@ -134,8 +142,16 @@ def esc(name: str) -> str:
 
 # ------------------------------------------------------------------ function table
 class Fn:
-    def __init__(self, module, cls, node: ast.FunctionDef):
+    def __init__(self, module, cls, node: ast.FunctionDef, slice_name=None):
         self.module, self.cls, self.node = module, cls, node
+        self.slice = slice_name
+        if slice_name:
+            picked = [st for st in node.body if SLICES[slice_name][1](st)]
+            if len(picked) != 1: raise Unsupported(f'slice {slice_name} of {node.name}: {len(picked)} matching statements')
+            node = ast.FunctionDef(name=f'{node.name}_{slice_name}', args=node.args, body=picked, decorator_list=[],
+                                   returns=ast.Constant(value=None), type_comment=None, type_params=[])
+            ast.fix_missing_locations(node)
+            self.node = node
         self.pyname = node.name
         self.selftype = CLASS_TYPE[cls] if cls else None
         self.lean = PREFIX[self.selftype] + node.name
@@ -148,7 +164,8 @@ class Fn:
             else:
                 self.params.append((a.arg, ann_type(a.annotation)))
         self.ret = ann_type(node.returns) if node.returns is not None else 'none'
-        self.uses_env = any(t == 'env' for _, t in self.params)
+        self.takes_env = any(t == 'env' for _, t in self.params)
+        self.takes_s = cls is not None or any(t in ('node', 'att', 'graph') for _, t in self.params)
         self.calls: set[str] = set()
         self.mutates = False
         self.raises = False
@@ -161,7 +178,9 @@ def collect(repo):
     for mod in MODULE_ORDER:
         path, sel = MODULES[mod]
         tree = ast.parse(open(os.path.join(repo, path), encoding='utf-8').read())
-        for cls, name in sel:
+        for entry in sel:
+            cls, name = entry[0], entry[1]
+            slice_name = entry[2] if len(entry) > 2 else None
             found = None
             if cls is None:
                 for n in tree.body:
@@ -173,10 +192,10 @@ def collect(repo):
                             if isinstance(n, ast.FunctionDef) and n.name == name: found = n
             if found is None:
                 raise Unsupported(f'{path}: function {cls}.{name} not found')
-            f = Fn(mod, cls, found)
+            f = Fn(mod, cls, found, slice_name)
             if f.lean in fns: raise Unsupported(f'duplicate {f.lean}')
             fns[f.lean] = f
-            by_method[(f.selftype, name)] = f
+            by_method[(f.selftype, f.pyname)] = f
     return fns, by_method
 
 # ------------------------------------------------------------------ effect analysis
@@ -254,6 +273,9 @@ def analyse(fns):
                         setattr(f, attr, True); changed = True
                 if not g.mut_attrs <= f.mut_attrs:
                     f.mut_attrs |= g.mut_attrs; changed = True
+                for attr in ('takes_env', 'takes_s'):
+                    if getattr(g, attr) and not getattr(f, attr):
+                        setattr(f, attr, True); changed = True
     # recursion: f reaches itself
     for f in fns.values():
         seen, todo = set(), list(f.calls)
@@ -296,7 +318,7 @@ class Tr:
         if isinstance(t, tuple) and t[0] == 'opt' and t[1] == 'dictS': return f'(dictTruthy {lean})'
         if t == ('opt', 'bool'): return f'(truthyOptBool {lean})'
         if t == ('opt', 'int'): return f'(truthyOptInt {lean})'
-        if isinstance(t, tuple) and t[0] == 'opt' and t[1] in ('node', 'att', 'asset', 'asset_obj', 'lgasset'): return f'({lean}).isSome'
+        if isinstance(t, tuple) and t[0] == 'opt' and t[1] in ('node', 'att', 'asset', 'asset_obj', 'lgasset', 'reaches', 'attribs'): return f'({lean}).isSome'
         if isinstance(t, tuple) and t[0] == 'list': return f'!({lean}).isEmpty'
         if t in ('node', 'att', 'asset', 'asset_obj', 'lgasset'): return 'true'
         raise Unsupported(f'truthiness of type {t}')
@@ -324,6 +346,7 @@ class Tr:
         if isinstance(e, ast.Attribute):
             base, bt = self.expr(e.value)
             if bt == 'graph':
+                if ATTRS['graph'].get(e.attr) == 'env': return 'env', 'env'
                 if e.attr in ATTRS['graph']: return f's.{e.attr}', ATTRS['graph'][e.attr]
                 raise Unsupported(f'graph attribute {e.attr}')
             if bt in ('node', 'att'):
@@ -346,6 +369,7 @@ class Tr:
         if isinstance(e, ast.BinOp) and isinstance(e.op, ast.Add):
             l, lt = self.expr(e.left); r, rt = self.expr(e.right)
             if lt == 'str' and rt == 'str': return f'({l} ++ {r})', 'str'
+            if lt == 'str' and rt == ('opt', 'str'): return f'({l} ++ optStrGet {r})', 'str'
             return f'({self.as_int(l, lt)} + {self.as_int(r, rt)})', 'int'
         if isinstance(e, ast.IfExp):
             return self.ifexp(e)
@@ -355,6 +379,10 @@ class Tr:
             base, bt = self.expr(e.value)
             k, kt = self.expr(e.slice)
             if bt == ('opt', 'dictS') and kt == 'str': return f'(dictGetS {base} {k})', 'str'
+            if bt == ('opt', 'attribs') and isinstance(e.slice, ast.Constant) and e.slice.value == 'reaches':
+                return f'(attribsReaches {base})', ('opt', 'reaches')
+            if bt == ('opt', 'reaches') and isinstance(e.slice, ast.Constant) and e.slice.value == 'stepExpressions':
+                return f'(reachesExprs {base})', ('list', 'expr')
             if bt == 'expr' and isinstance(e.slice, ast.Constant) and e.slice.value in EXPR_KEYS:
                 return f'{base}.{e.slice.value}', EXPR_KEYS[e.slice.value]
             raise Unsupported(f'subscript on {bt}')
@@ -366,6 +394,8 @@ class Tr:
         if isinstance(e, ast.List):
             parts = [self.expr(v) for v in e.elts]
             if not parts: return '[]', ('list', '?')
+            if len(parts) == 1 and parts[0][1] == ('opt', 'asset_obj'):
+                return f'(optAssetList {parts[0][0]})', ('list', 'asset_obj')
             ts = {t for _, t in parts}
             if len(ts) != 1: raise Unsupported('heterogeneous list literal')
             return '[' + ', '.join(x for x, _ in parts) + ']', ('list', ts.pop())
@@ -451,6 +481,7 @@ class Tr:
             raise Unsupported('narrowing conditional expression types')
         c, ct = self.expr(t)
         a, at = self.expr(e.body); b, bt = self.expr(e.orelse)
+        if bt == ('list', '?') and isinstance(at, tuple) and at[0] == 'list': bt = at
         if at != bt: raise Unsupported('conditional expression types')
         return f'(if {self.truthy(c, ct)} then {a} else {b})', at
 
@@ -476,8 +507,12 @@ class Tr:
     def fuel_arg(self, f: Fn):
         if not f.recursive: return ''
         if self.fn.recursive and f.lean == self.fn.lean: return 'fuel '
-        if f.uses_env: raise Unsupported('call of a recursive evaluator function from another function')
+        if not f.takes_s: return 'env.evalFuel '      # the evaluator: its callers hand it the fuel of the environment
         return '(pyFuel s) '
+
+    @staticmethod
+    def ctx(f: Fn):
+        return ('s ' if f.takes_s else '') + ('env ' if f.takes_env else '')
 
     def resolve_call(self, e: ast.Call):
         """(Fn, receiver lean, args) if e calls a translated function"""
@@ -501,7 +536,7 @@ class Tr:
             f, recv, args = r
             if f.mutates: raise Unsupported(f'call of mutating function {f.lean} inside an expression')
             la = self.call_args(f, recv, args)
-            txt = f'{f.lean} {self.fuel_arg(f)}{"env" if f.uses_env else "s"} ' + ' '.join(la)
+            txt = f'{f.lean} {self.fuel_arg(f)}{self.ctx(f)}' + ' '.join(la)
             if f.raises:
                 if not self.monadic: raise Unsupported('raising call in pure function')
                 return f'(← {txt.strip()})', f.ret
@@ -568,6 +603,10 @@ class Tr:
                 if t == 'str': return x, 'str'
                 if t == 'int': return f'(toString {x})', 'str'
                 if t == ('opt', 'int'): return f'(strOptInt {x})', 'str'
+            if n == 'isinstance' and len(e.args) == 2 and isinstance(e.args[1], ast.Name) and e.args[1].id == 'dict':
+                x, t = self.expr(e.args[0])
+                if t == ('opt', 'attribs'): return f'({x}).isSome', 'bool'
+                raise Unsupported('isinstance(.., dict)')
             if n == 'isinstance' and len(e.args) == 2 and isinstance(e.args[1], ast.Name) and e.args[1].id in ('int', 'bool'):
                 x, t = self.expr(e.args[0])
                 if t == ('opt', e.args[1].id): return f'({x}).isSome', 'bool'
@@ -655,7 +694,7 @@ class Tr:
                 if r:
                     f, recv, args = r
                     la = self.call_args(f, recv, args)
-                    txt = f'{f.lean} {self.fuel_arg(f)}{"env" if f.uses_env else "s"} ' + ' '.join(la)
+                    txt = f'{f.lean} {self.fuel_arg(f)}{self.ctx(f)}' + ' '.join(la)
                     if f.mutates:
                         self.emit(ind, f's ← {txt.strip()}' if f.raises else f's := {txt.strip()}')
                     elif f.raises:
@@ -754,7 +793,9 @@ class Tr:
                 raise Unsupported('logger guard around non-logging code')
             # `if not x: raise E` on an Optional local: afterwards x is known to be present
             t0 = st.test
-            body0 = [b for b in st.body if not (isinstance(b, ast.Expr) and (is_logger_call(b.value) or isinstance(b.value, ast.Constant)))]
+            body0 = [b for b in st.body if not (isinstance(b, ast.Expr) and (is_logger_call(b.value) or isinstance(b.value, ast.Constant)))
+                     and not (isinstance(b, ast.Assign) and len(b.targets) == 1 and isinstance(b.targets[0], ast.Name)
+                              and b.targets[0].id in self.skip_locals)]
             if isinstance(t0, ast.UnaryOp) and isinstance(t0.op, ast.Not) and isinstance(t0.operand, ast.Name) and not st.orelse \
                     and len(body0) == 1 and isinstance(body0[0], ast.Raise) and self.monadic:
                 x, xt = self.expr(t0.operand)
@@ -829,7 +870,7 @@ class Tr:
                     if isinstance(lt, tuple) and lt[0] == 'list' and lt[1] == xt:
                         self.write_attr(ind, c.func.value, f'pyRemoveAll {l} {x}')
                         return
-            if not self.fn.uses_env: raise Unsupported('while loop')
+            if not self.fn.takes_env: raise Unsupported('while loop')
             # general loop: unrolled at most env.whileFuel times; if the condition still holds then, the translated
             # function raises PyErr.nonTermination (the Python would go on; C01 proves this unreachable)
             c, ct = self.expr(t)
@@ -993,9 +1034,11 @@ class Tr:
         elif isinstance(last, ast.Match):
             pass
         run = 'do' if fn.raises else 'Id.run do'
-        head = f'def {fn.lean} ' + ('(fuel : Nat) ' if fn.recursive else '') + ('(env : EvalEnv) ' if fn.uses_env else '(s : H) ') + ' '.join(params)
+        head = f'def {fn.lean} ' + ('(fuel : Nat) ' if fn.recursive else '') + ('(s : H) ' if fn.takes_s else '') + \
+            ('(env : EvalEnv) ' if fn.takes_env else '') + ' '.join(params)
         head = head.rstrip() + f' : {rty} :='
-        src = f'-- {MODULES[fn.module][0]}: ' + (f'{fn.cls}.' if fn.cls else '') + fn.pyname + '\n'
+        src = f'-- {MODULES[fn.module][0]}: ' + (f'{fn.cls}.' if fn.cls else '') + fn.pyname + \
+            (f'  (slice: {SLICES[fn.slice][0]})' if fn.slice else '') + '\n'
         if fn.recursive:
             # out of fuel: a mutating function returns the heap as it is (the propagation functions; C08 proves the
             # supplied fuel sufficient), a function that returns a value raises RecursionError like CPython
@@ -1022,7 +1065,9 @@ def generate(repo) -> dict[str, str]:
         path, sel = MODULES[mod]
         imports = 'import MalVerif.Py.Prelude\n' + ''.join(f'import MalVerif.Py.Gen.{m}\n' for m in IMPORTS[mod])
         txt = HEADER.format(path=path, imports=imports.rstrip())
-        for cls, name in sel:
+        for entry in sel:
+            cls, name = entry[0], entry[1]
+            if len(entry) > 2: name = f'{name}_{entry[2]}'
             f = by_method[(CLASS_TYPE[cls] if cls else None, name)]
             txt += Tr(f, fns, by_method).translate() + '\n'
         txt += 'end MalVerif.Py.Gen\n'
